@@ -44,7 +44,8 @@ fn norm_chroma<T: Pixel>(bd: u8, full: bool) {
 
 // ---------------------------------------------------------------- C02: quantiser = nearest H.273 code
 // for every f32 v in [-2,2] (superset of what RGB in [-0.5,1.5]^3 can produce):
-//   |code - clamp(range*v + black, 0, max)| <= 0.5 + 1e-6*2^n   (ideal computed exactly in f64)
+//   |code - clamp(range*v + black, 0, max)| <= 0.5 + 4e-7*2^n   (ideal computed exactly in f64; the remaining 6e-7*2^n of the
+//   property's 1e-6*2^n slack is the f32 error of the 3x3 product feeding v: Verus U-round, lemma_encode_budget)
 fn quant_luma<T: Pixel>(bd: u8, full: bool) {
     let v: f32 = kani::any();
     kani::assume(v >= -2.0 && v <= 2.0);
@@ -55,7 +56,7 @@ fn quant_luma<T: Pixel>(bd: u8, full: bool) {
     let ideal = fclamp(ideal, 0.0, maxcode(bd) as f64);
     kani::cover!(v < 0.0);
     kani::cover!(v > 1.0);
-    assert!((code - ideal).abs() <= 0.5 + 1e-6 * ((1u32 << bd) as f64));
+    assert!((code - ideal).abs() <= 0.5 + 4e-7 * ((1u32 << bd) as f64));
 }
 fn quant_chroma<T: Pixel>(bd: u8, full: bool) {
     let v: f32 = kani::any();
@@ -67,7 +68,7 @@ fn quant_chroma<T: Pixel>(bd: u8, full: bool) {
     let ideal = fclamp(ideal, 0.0, maxcode(bd) as f64);
     kani::cover!(v == -0.5);
     kani::cover!(v > 0.5);
-    assert!((code - ideal).abs() <= 0.5 + 1e-6 * ((1u32 << bd) as f64));
+    assert!((code - ideal).abs() <= 0.5 + 4e-7 * ((1u32 << bd) as f64));
 }
 
 // ---------------------------------------------------------------- C13: valid codes for EVERY f32 bit pattern
@@ -186,3 +187,47 @@ per_depth!(anchors, u16, anchors_u16_b08_lim = (8, false), anchors_u16_b08_full 
     anchors_u16_b14_lim = (14, false), anchors_u16_b14_full = (14, true), anchors_u16_b15_lim = (15, false), anchors_u16_b15_full = (15, true),
     anchors_u16_b16_lim = (16, false), anchors_u16_b16_full = (16, true));
 per_depth!(anchors, u8, anchors_u8_b08_lim = (8, false), anchors_u8_b08_full = (8, true));
+
+// ---------------------------------------------------------------- C08, all triples: the quantiser absorbs a perturbation
+// for every code c and every f32 perturbation |e| <= 2.5e-6 of its normalised value, the code comes back exactly
+// (2.5e-6 bounds the f32 error of inv.mul_arr followed by fwd.mul_arr: Verus U-round, lemma_roundtrip_budget)
+fn rt_pert_luma<T: Pixel>(bd: u8, full: bool) {
+    let c: u16 = kani::any();
+    kani::assume(c <= maxcode(bd));
+    let e: f32 = kani::any();
+    kani::assume(e >= -2.5e-6 && e <= 2.5e-6);
+    let (s, o) = get_scale_offset::<true>(bd, full, false);
+    let (s2, o2) = get_scale_offset::<false>(bd, full, false);
+    let v = to_f32_luma(T::cast_from(c), s, o) + e;
+    let back: T = from_f32_luma(v, s2, o2, bd);
+    let k = 1u16 << (bd - 8);
+    let expect = if full { c } else { clamp(c, 16 * k, 235 * k) };
+    kani::cover!(e < 0.0); kani::cover!(e > 0.0);
+    assert!(u16::cast_from(back) == expect);
+}
+fn rt_pert_chroma<T: Pixel>(bd: u8, full: bool) {
+    let c: u16 = kani::any();
+    kani::assume(c <= maxcode(bd));
+    let e: f32 = kani::any();
+    kani::assume(e >= -2.5e-6 && e <= 2.5e-6);
+    let (s, o) = get_scale_offset::<true>(bd, full, true);
+    let (s2, o2) = get_scale_offset::<false>(bd, full, true);
+    let v = to_f32_chroma(T::cast_from(c), s, o) + e;
+    let back: T = from_f32_chroma(v, s2, o2, bd, full);
+    let back = u16::cast_from(back);
+    let k = 1u16 << (bd - 8);
+    kani::cover!(e < 0.0); kani::cover!(e > 0.0);
+    if full { assert!(back == c || (c == 0 && back == 1)); } else { assert!(back == clamp(c, 16 * k, 240 * k)); }
+}
+per_depth!(rt_pert_luma, u16, rt_pert_luma_u16_b08_lim = (8, false), rt_pert_luma_u16_b08_full = (8, true), rt_pert_luma_u16_b09_lim = (9, false), rt_pert_luma_u16_b09_full = (9, true),
+    rt_pert_luma_u16_b10_lim = (10, false), rt_pert_luma_u16_b10_full = (10, true), rt_pert_luma_u16_b11_lim = (11, false), rt_pert_luma_u16_b11_full = (11, true),
+    rt_pert_luma_u16_b12_lim = (12, false), rt_pert_luma_u16_b12_full = (12, true), rt_pert_luma_u16_b13_lim = (13, false), rt_pert_luma_u16_b13_full = (13, true),
+    rt_pert_luma_u16_b14_lim = (14, false), rt_pert_luma_u16_b14_full = (14, true), rt_pert_luma_u16_b15_lim = (15, false), rt_pert_luma_u16_b15_full = (15, true),
+    rt_pert_luma_u16_b16_lim = (16, false), rt_pert_luma_u16_b16_full = (16, true));
+per_depth!(rt_pert_luma, u8, rt_pert_luma_u8_b08_lim = (8, false), rt_pert_luma_u8_b08_full = (8, true));
+per_depth!(rt_pert_chroma, u16, rt_pert_chroma_u16_b08_lim = (8, false), rt_pert_chroma_u16_b08_full = (8, true), rt_pert_chroma_u16_b09_lim = (9, false), rt_pert_chroma_u16_b09_full = (9, true),
+    rt_pert_chroma_u16_b10_lim = (10, false), rt_pert_chroma_u16_b10_full = (10, true), rt_pert_chroma_u16_b11_lim = (11, false), rt_pert_chroma_u16_b11_full = (11, true),
+    rt_pert_chroma_u16_b12_lim = (12, false), rt_pert_chroma_u16_b12_full = (12, true), rt_pert_chroma_u16_b13_lim = (13, false), rt_pert_chroma_u16_b13_full = (13, true),
+    rt_pert_chroma_u16_b14_lim = (14, false), rt_pert_chroma_u16_b14_full = (14, true), rt_pert_chroma_u16_b15_lim = (15, false), rt_pert_chroma_u16_b15_full = (15, true),
+    rt_pert_chroma_u16_b16_lim = (16, false), rt_pert_chroma_u16_b16_full = (16, true));
+per_depth!(rt_pert_chroma, u8, rt_pert_chroma_u8_b08_lim = (8, false), rt_pert_chroma_u8_b08_full = (8, true));
